@@ -139,6 +139,16 @@ pub struct US5 {
     pub v: FlatVec<u16, u8>,
 }
 
+/// a field whose size (2) exceeds its alignment (1) at an odd offset, followed by a more
+/// strictly aligned one: a@0 b@1..3 (pad@3) c@4..6 d@6 (len@6, data@7..); align 2, MIN 8
+#[flat(sized = false, default = true)]
+pub struct US6 {
+    pub a: u8,
+    pub b: [u8; 2],
+    pub c: u16,
+    pub d: FlatVec<u8, u8>,
+}
+
 /// the test suite's UnsizedEnum. tag@0, DATA_OFFSET 4, align 4, MIN 4.
 /// B(u8@4, u16@6) needs 4 data bytes; C{offset:u32@4, bytes:FlatVec<u8,u16>@8 (len@8..10, data@10..)} needs 6.
 #[flat(sized = false, default = true)]
@@ -255,11 +265,15 @@ fn sized(b: &[u8], size: usize, d: &mut Dec) -> bool {
 
 macro_rules! shape {
     ($name:ident, $t:ty, $a:expr, $min:expr, |$b:ident, $d:ident| $dec:block, |$v:ident, $o:ident| $obs:block) => {
+        shape!($name, true, $t, $a, $min, |$b, $d| $dec, |$v, $o| $obs);
+    };
+    ($name:ident, $constrained:literal, $t:ty, $a:expr, $min:expr, |$b:ident, $d:ident| $dec:block, |$v:ident, $o:ident| $obs:block) => {
         pub struct $name;
         impl Shape for $name {
             type T = $t;
             const A: usize = $a;
             const MIN: usize = $min;
+            const CONSTRAINED: bool = $constrained;
             fn decode($b: &[u8]) -> Dec {
                 let mut dd = Dec::new();
                 {
@@ -273,7 +287,7 @@ macro_rules! shape {
     };
 }
 
-shape!(S_U16, u16, 2, 2, |b, d| {
+shape!(S_U16, false, u16, 2, 2, |b, d| {
     if sized(b, 2, d) {
         d.c.put16(rd16(b, 0));
     }
@@ -318,7 +332,7 @@ shape!(S_SB2, [SB; 2], 2, 12, |b, d| {
     obs_sb(&v[1], o);
 });
 
-shape!(S_SS1, SS1, 4, 8, |b, d| {
+shape!(S_SS1, false, SS1, 4, 8, |b, d| {
     if sized(b, 8, d) {
         d.c.put(b[0]);
         d.c.put16(rd16(b, 2));
@@ -329,6 +343,17 @@ shape!(S_SS1, SS1, 4, 8, |b, d| {
     o.c.put(v.a);
     o.c.put16(v.b);
     o.c.put32(v.c);
+});
+
+shape!(S_SS2, false, SS2, 2, 4, |b, d| {
+    if sized(b, 4, d) {
+        d.c.put16(rd16(b, 0));
+        d.c.put(b[2]);
+    }
+}, |v, o| {
+    o.at(v);
+    o.c.put16(v.a);
+    o.c.put(v.b);
 });
 
 shape!(S_SE1, SE1, 4, 8, |b, d| {
@@ -419,7 +444,7 @@ shape!(S_SE16, SE16, 2, 4, |b, d| {
     }
 });
 
-shape!(S_PS, PS, 1, 7, |b, d| {
+shape!(S_PS, false, PS, 1, 7, |b, d| {
     if sized(b, 7, d) {
         dec_ps(b, 0, d);
     }
@@ -473,11 +498,11 @@ fn top_vec(e: El, lsz: usize, lalign: usize, b: &[u8], d: &mut Dec) {
     }
 }
 
-shape!(V_U8, FlatVec<u8, u8>, 1, 1, |b, d| { top_vec(El::U8, 1, 1, b, d); }, |v, o| { obs_vec_u8(v, o); });
+shape!(V_U8, false, FlatVec<u8, u8>, 1, 1, |b, d| { top_vec(El::U8, 1, 1, b, d); }, |v, o| { obs_vec_u8(v, o); });
 
-shape!(V_U8L32, FlatVec<u8, u32>, 4, 4, |b, d| { top_vec(El::U8, 4, 4, b, d); }, |v, o| { obs_vec_u8(v, o); });
+shape!(V_U8L32, false, FlatVec<u8, u32>, 4, 4, |b, d| { top_vec(El::U8, 4, 4, b, d); }, |v, o| { obs_vec_u8(v, o); });
 
-shape!(V_U16, FlatVec<u16, u8>, 2, 2, |b, d| { top_vec(El::U16, 1, 1, b, d); }, |v, o| {
+shape!(V_U16, false, FlatVec<u16, u8>, 2, 2, |b, d| { top_vec(El::U16, 1, 1, b, d); }, |v, o| {
     o.lc(v.len(), v.capacity());
     let s = v.as_slice();
     o.slice(s);
@@ -513,7 +538,7 @@ shape!(V_SB, FlatVec<SB, u8>, 2, 2, |b, d| { top_vec(El::SB, 1, 1, b, d); }, |v,
     }
 });
 
-shape!(V_A3, FlatVec<[u8; 3], u16>, 2, 2, |b, d| { top_vec(El::A3, 2, 2, b, d); }, |v, o| {
+shape!(V_A3, false, FlatVec<[u8; 3], u16>, 2, 2, |b, d| { top_vec(El::A3, 2, 2, b, d); }, |v, o| {
     o.lc(v.len(), v.capacity());
     let s = v.as_slice();
     o.slice(s);
@@ -527,7 +552,7 @@ shape!(V_A3, FlatVec<[u8; 3], u16>, 2, 2, |b, d| { top_vec(El::A3, 2, 2, b, d); 
     }
 });
 
-shape!(V_P, FlatVec<le::U16, le::U16>, 1, 2, |b, d| { top_vec(El::LeU16, 2, 1, b, d); }, |v, o| {
+shape!(V_P, false, FlatVec<le::U16, le::U16>, 1, 2, |b, d| { top_vec(El::LeU16, 2, 1, b, d); }, |v, o| {
     o.lc(v.len(), v.capacity());
     let s = v.as_slice();
     o.slice(s);
@@ -615,6 +640,7 @@ pub fn dec_flex(it: Item, lsz: usize, lalign: usize, b: &[u8], base: usize, d: &
         let off = rd(b, pos, lsz);
         if off == 0 {
             d.c.put(count);
+            d.aux = pos;
             return Some((pos + lsz, pos + os));
         }
         if off == lmax(lsz) {
@@ -626,6 +652,7 @@ pub fn dec_flex(it: Item, lsz: usize, lalign: usize, b: &[u8], base: usize, d: &
             return match r {
                 Some((u, e)) => {
                     d.c.put(count + 1);
+                    d.aux = pos + os + ce(e, al);
                     Some((pos + os + u, pos + os + ce(e, al)))
                 }
                 None => None,
@@ -664,7 +691,7 @@ fn top_flex(it: Item, lsz: usize, lalign: usize, b: &[u8], d: &mut Dec) {
     }
 }
 
-shape!(X_U8, FlexVec<u8, u8>, 1, 1, |b, d| { top_flex(Item::El(El::U8), 1, 1, b, d); }, |v, o| {
+shape!(X_U8, false, FlexVec<u8, u8>, 1, 1, |b, d| { top_flex(Item::El(El::U8), 1, 1, b, d); }, |v, o| {
     let mut n = 0u8;
     for x in v.iter() {
         o.at(x);
@@ -693,7 +720,7 @@ shape!(X_U16, FlexVec<u16, u16>, 2, 2, |b, d| { top_flex(Item::El(El::U16), 2, 2
     o.c.put(n);
 });
 
-shape!(X_V, FlexVec<FlatVec<u8, u8>, u8>, 1, 1, |b, d| { top_flex(Item::VecU8(1), 1, 1, b, d); }, |v, o| {
+shape!(X_V, false, FlexVec<FlatVec<u8, u8>, u8>, 1, 1, |b, d| { top_flex(Item::VecU8(1), 1, 1, b, d); }, |v, o| {
     let mut n = 0u8;
     for x in v.iter() {
         obs_vec_u8(x, o);
@@ -711,6 +738,16 @@ shape!(X_V16, FlexVec<FlatVec<u8, u16>, u16>, 2, 2, |b, d| { top_flex(Item::VecU
     o.c.put(n);
 });
 
+// offset type more strictly aligned than the items: OFFSET_SIZE 2, align 2, items of align 1
+shape!(X_V8L16, false, FlexVec<FlatVec<u8, u8>, u16>, 2, 2, |b, d| { top_flex(Item::VecU8(1), 2, 2, b, d); }, |v, o| {
+    let mut n = 0u8;
+    for x in v.iter() {
+        obs_vec_u8(x, o);
+        n += 1;
+    }
+    o.c.put(n);
+});
+
 shape!(X_S, FlexVec<FlatString<u8>, u8>, 1, 1, |b, d| { top_flex(Item::Str8, 1, 1, b, d); }, |v, o| {
     let mut n = 0u8;
     for x in v.iter() {
@@ -720,7 +757,7 @@ shape!(X_S, FlexVec<FlatString<u8>, u8>, 1, 1, |b, d| { top_flex(Item::Str8, 1, 
     o.c.put(n);
 });
 
-shape!(X_P, FlexVec<le::U16, le::U16>, 1, 2, |b, d| { top_flex(Item::El(El::LeU16), 2, 1, b, d); }, |v, o| {
+shape!(X_P, false, FlexVec<le::U16, le::U16>, 1, 2, |b, d| { top_flex(Item::El(El::LeU16), 2, 1, b, d); }, |v, o| {
     let mut n = 0u8;
     for x in v.iter() {
         o.at(x);
@@ -732,7 +769,7 @@ shape!(X_P, FlexVec<le::U16, le::U16>, 1, 2, |b, d| { top_flex(Item::El(El::LeU1
 
 // ================================== unsized structs ==================================
 
-shape!(U_S1, US1, 2, 6, |b, d| {
+shape!(U_S1, false, US1, 2, 6, |b, d| {
     let n = fl(b.len(), 2);
     if n < 6 {
         d.short = true;
@@ -752,7 +789,7 @@ shape!(U_S1, US1, 2, 6, |b, d| {
     obs_vec_u8(&v.c, o);
 });
 
-shape!(U_S2, US2, 4, 8, |b, d| {
+shape!(U_S2, false, US2, 4, 8, |b, d| {
     let n = fl(b.len(), 4);
     if n < 8 {
         d.short = true;
@@ -784,7 +821,7 @@ shape!(U_S3, US3, 1, 2, |b, d| {
     obs_str(&v.s, o);
 });
 
-shape!(U_S4, US4, 1, 2, |b, d| {
+shape!(U_S4, false, US4, 1, 2, |b, d| {
     if b.len() < 2 {
         d.short = true;
     } else {
@@ -806,7 +843,32 @@ shape!(U_S4, US4, 1, 2, |b, d| {
     o.c.put(n);
 });
 
-shape!(U_S5, US5, 2, 4, |b, d| {
+shape!(U_S6, false, US6, 2, 8, |b, d| {
+    let n = fl(b.len(), 2);
+    if n < 8 {
+        d.short = true;
+    } else {
+        d.c.put(b[0]);
+        d.c.put(b[1]);
+        d.c.put(b[2]);
+        d.c.put16(rd16(b, 4));
+        if let Some(u) = dec_vec(El::U8, 1, 1, &b[6..n], 6, d) {
+            d.used = 6 + u;
+            d.ext = ce(6 + u, 2);
+        }
+    }
+}, |v, o| {
+    o.at(&v.a);
+    o.at(&v.b);
+    o.at(&v.c);
+    o.c.put(v.a);
+    o.c.put(v.b[0]);
+    o.c.put(v.b[1]);
+    o.c.put16(v.c);
+    obs_vec_u8(&v.d, o);
+});
+
+shape!(U_S5, false, US5, 2, 4, |b, d| {
     let n = fl(b.len(), 2);
     if n < 4 {
         d.short = true;
@@ -831,7 +893,7 @@ shape!(U_S5, US5, 2, 4, |b, d| {
     }
 });
 
-shape!(U_PS, PUS, 1, 4, |b, d| {
+shape!(U_PS, false, PUS, 1, 4, |b, d| {
     if b.len() < 4 {
         d.short = true;
     } else {
